@@ -1,12 +1,33 @@
 package peer
 
-import "github.com/postalsys/muti-metroo/internal/transport"
+import (
+	"context"
+	"net"
+
+	"github.com/postalsys/muti-metroo/internal/identity"
+	"github.com/postalsys/muti-metroo/internal/protocol"
+	"github.com/postalsys/muti-metroo/internal/transport"
+)
+
+type c38PeerConn struct{ dialer bool }
+
+func (c *c38PeerConn) OpenStream(ctx context.Context) (transport.Stream, error)   { return nil, nil }
+func (c *c38PeerConn) AcceptStream(ctx context.Context) (transport.Stream, error) { return nil, nil }
+func (c *c38PeerConn) Close() error                                               { return nil }
+func (c *c38PeerConn) LocalAddr() net.Addr                                        { return nil }
+func (c *c38PeerConn) RemoteAddr() net.Addr                                       { return nil }
+func (c *c38PeerConn) IsDialer() bool                                             { return c.dialer }
+func (c *c38PeerConn) TransportType() transport.TransportType                     { return "" }
 
 // C38 at the layer the agent uses: Connection.NextStreamID called from two
 // goroutines, every interleaving at atomic-operation granularity.
 func harnessC38Connection() {
 	dialer := verif_nondet_bool()
-	c := &Connection{streamAlloc: transport.NewStreamIDAllocator(dialer)}
+	// a fresh connection as the manager creates it: the first allocations may already race
+	verif_sched_explore(false) // set-up is not part of the explored schedule
+	c := NewConnection(&c38PeerConn{dialer: dialer}, DefaultConnectionConfig(identity.AgentID{1}))
+	verif_drain()
+	verif_sched_explore(true)
 	var a, b, a2 uint64
 	done := 0
 	go func() {
@@ -23,3 +44,6 @@ func harnessC38Connection() {
 	verif_assert(a != 0 && b != 0 && a2 != 0, "C38/zero-identifier")
 	verif_assert(odd(a) == dialer && odd(b) == dialer && odd(a2) == dialer, "C38/identifier-parity-does-not-match-the-role")
 }
+
+// the frame dispatch goroutines a connection starts are irrelevant here (replaced, see props)
+func c38NoDrain(c *Connection, ch <-chan *protocol.Frame) {}
